@@ -99,7 +99,7 @@ CHECKS["C04"] = {
                   "over ~48 adversarial lines (incl. 9000-byte lines) is read under all 63 delimiter x comment x option configurations; every successful "
                   "object goes through every listing, typed/defaulted/extended getter, write + re-read; all ordered pairs of distinct object shapes are merged; "
                   "oracle = termination, documented return code, no ASan/UBSan report",
-    "level_note": "bounded: n<=4 all configurations / n<=5 core configurations, m<=2 / 3 (quick); n<=5 / 6, m<=3 / 4 (thorough); merge pairs over the shapes "
+    "level_note": "bounded: n<=4 all 63 configurations / n<=5 nine core configurations, m<=2 all / m<=3 four core configurations (quick); n<=5 / 6, m<=3 all / m<=4 four core (thorough); merge pairs over the shapes "
                   "reachable from the bounded inputs; trusted: gcc ASan+UBSan, the shape abstraction (merge looks only at equal group names, equal keys, NULL values)",
     "rule": "case = (configuration, content); non-trivial = the read succeeded and the object was exercised; distinct by construction; merge part: ordered pairs "
             "of objects with distinct listing shapes (groups/keys renamed by first occurrence, NULL-ness of values, empty sections)",
@@ -107,7 +107,7 @@ CHECKS["C04"] = {
     "parts": [
         {"name": "bytes", "harness": "c04", "variant": "asan", "quick": ["--p0", 0, "--p1", 4, "--p2", 5], "thorough": ["--p0", 0, "--p1", 5, "--p2", 6],
          "deadline_share": 0.4, "floor": {"quick": 100000, "thorough": 1000000}},
-        {"name": "lines", "harness": "c04", "variant": "asan", "quick": ["--p0", 1, "--p1", 2, "--p2", 3], "thorough": ["--p0", 1, "--p1", 3, "--p2", 4],
+        {"name": "lines", "harness": "c04", "variant": "asan", "quick": ["--p0", 1, "--p1", 2, "--p2", 3, "--p3", 4], "thorough": ["--p0", 1, "--p1", 3, "--p2", 4, "--p3", 4],
          "deadline_share": 0.4, "floor": {"quick": 50000, "thorough": 1000000}},
         {"name": "mergepairs", "harness": "c04", "variant": "asan", "quick": ["--p0", 2, "--p1", 3, "--p2", 4], "thorough": ["--p0", 2, "--p1", 4, "--p2", 5],
          "deadline_share": 0.2, "floor": {"quick": 1000, "thorough": 10000}},
@@ -223,7 +223,9 @@ CHECKS["C10"] = {
         {"name": "bfs-readonly", "harness": "c10", "variant": "asan", "shards": 1, "quick": ["--p0", 0, "--p1", 4, "--p2", 1], "thorough": ["--p0", 0, "--p1", 5, "--p2", 2],
          "deadline_share": 0.5, "floor": {"quick": 1000, "thorough": 10000}},
         {"name": "files-readonly", "harness": "c10", "variant": "asan", "quick": ["--p0", 1, "--p1", 2, "--p2", 1], "thorough": ["--p0", 1, "--p1", 3, "--p2", 1],
-         "deadline_share": 0.5, "floor": {"quick": 10000, "thorough": 100000}},
+         "deadline_share": 0.45, "floor": {"quick": 10000, "thorough": 100000}},
+        {"name": "layered-objects-readonly", "harness": "c10", "variant": "asan", "shards": 4, "quick": ["--p0", 2], "thorough": ["--p0", 2],
+         "deadline_share": 0.05, "floor": {"quick": 20, "thorough": 20}},
     ],
     "assumptions": ["sequences longer than two read-only calls are covered by the whole battery run in one fixed order, not by all permutations"],
 }
@@ -316,12 +318,14 @@ CHECKS["C17"] = {
                   "for all 21 configurations: for every key the extended value must report the absolute path, the line on which the entry ends, the texts of the "
                   "directly preceding comment lines, the trailing comment text and the blank-trimmed value lines; econf_getPath absolute (also for a relative "
                   "name), empty for a merge result",
-    "level_note": "bounded: N<=3, D<=1 (quick); N<=4, D<=2 under a deadline (thorough); comment blocks separated from their entry by a blank line or header are not judged",
+    "level_note": "bounded: N<=3 undecorated and N<=2 with D<=2 decorations (quick); N<=4 with D<=1 and N<=3 with D<=2 under a deadline (thorough); comment blocks separated from their entry by a blank line or header are not judged",
     "rule": "case = (configuration, file, decorations); non-trivial = some entry has a comment block, a trailing comment or several lines, or the file is read by relative name; distinct by construction",
     "deadline": {"quick": 110, "thorough": 1200},
     "parts": [
-        {"name": "metadata", "harness": "c17", "variant": "asan", "quick": ["--p0", 3, "--p1", 1], "thorough": ["--p0", 4, "--p1", 2, "--p2", 1],
-         "deadline_share": 0.95, "floor": {"quick": 100000, "thorough": 1000000}},
+        {"name": "metadata", "harness": "c17", "variant": "asan", "quick": ["--p0", 3, "--p1", 0], "thorough": ["--p0", 4, "--p1", 1, "--p2", 1],
+         "deadline_share": 0.45, "floor": {"quick": 100000, "thorough": 1000000}},
+        {"name": "metadata-decorated", "harness": "c17", "variant": "asan", "quick": ["--p0", 2, "--p1", 2], "thorough": ["--p0", 3, "--p1", 2],
+         "deadline_share": 0.5, "floor": {"quick": 100000, "thorough": 1000000}},
         {"name": "merged-path", "harness": "c17", "variant": "asan", "shards": 2, "quick": ["--p3", 1], "thorough": ["--p3", 1],
          "deadline_share": 0.05, "floor": {"quick": 20, "thorough": 20}},
     ],
